@@ -91,6 +91,8 @@ class CallMixin:
         cls = self.static_class(obj)
         if attr == "__class__":
             return SV(v.clsobj(v.ty(self.box(obj))), "class")
+        if cls is not None and cls not in self.repo.classes and ("method:" + attr) in self.side.assumed:
+            return SV(None, "pyfunc", py=("extmethod", obj, attr))
         if cls is not None:
             for c_ in (self.repo.classes[cls].mro if cls in self.repo.classes else []):
                 if f"{c_}.{attr}" in self.repo.classes:
@@ -111,6 +113,9 @@ class CallMixin:
             root = self.unique_method_root(attr)
             if root is not None:
                 return self.get_attr(SV(obj.t, "obj:" + root), attr, st, fr, node)
+            if attr in ("keys", "values", "items", "get"):
+                self.typing_assumptions += 1          # receiver of a dict-only method is viewed as a dict
+                return SV(None, "pyfunc", py=("method", SV(obj.t, "dict"), attr))
             return self.read_attr(obj, attr, st, fr)
         if obj.pt == "none":
             self.may_raise(st, fr, "AttributeError", z3.BoolVal(False), node, "none-attr")
